@@ -54,7 +54,17 @@ def cases(draw):
         "temperature": draw(st.sampled_from([0.0, 0.01, 0.5, 2.0])),
         "seed": draw(st.integers(0, 999)),
         "max_repeats": draw(st.integers(1, 8)),
-        "via": draw(st.sampled_from(["finder", "finder", "slice", "reslice"])),
+        "via": draw(st.sampled_from(["finder", "finder", "slice", "reslice", "finder_reuse"])),
+        # for finder_reuse: an earlier query with other targets on the SAME finder
+        "first_targets": draw(
+            st.fixed_dictionaries(
+                {
+                    "size_div": st.sampled_from([None, 2, 8, 64]),
+                    "slices": st.sampled_from([None, 2, 6]),
+                    "overhead": st.sampled_from([None, 1.5, 4.0, 16.0]),
+                }
+            )
+        ),
     }
 
 
@@ -110,12 +120,29 @@ def run_case(spec, sub=None):
         k = res.split(":")[0]
         return Outcome([], False, cls + [f"no_answer:{k}"])
 
-    if spec["via"] == "finder":
+    if spec["via"] in ("finder", "finder_reuse"):
         def search():
             sf = ctg.slicer.SliceFinder(
                 tree, allow_outer=spec["allow_outer"], minimize=spec["minimize"],
                 temperature=spec["temperature"], seed=spec["seed"], **kw,
             )
+            if spec["via"] == "finder_reuse":
+                # the same finder answered another query first (its cache of
+                # candidate slicings is shared between queries)
+                ft = spec["first_targets"]
+                k1 = {}
+                if ft["size_div"]:
+                    k1["target_size"] = max(1, base_size // ft["size_div"])
+                if ft["slices"]:
+                    k1["target_slices"] = ft["slices"]
+                if ft["overhead"]:
+                    k1["target_overhead"] = ft["overhead"]
+                if k1:
+                    try:
+                        sf.search(spec["max_repeats"], **k1)
+                    except Exception:
+                        pass
+                return sf.search(spec["max_repeats"], **kw)
             return sf.search(spec["max_repeats"])
 
         ok, res = guarded(search)
